@@ -285,13 +285,18 @@ static unsigned int assemble_instr(struct instr *instruc, unsigned char ptr[]) {
 unsigned int nop_padding(uint8_t *buf, unsigned int nop_pad_len) {
 
   uint8_t *ptr = buf;
-  // find nop instruction of a specified length
-  const uint8_t *nop_to_use = FIXED_NOP_LENGTH[nop_pad_len - 1];
-  unsigned int j = 0;
-  // assemble nop instruction
-  for (unsigned i = 0; i < nop_pad_len; i++) {
-    *(ptr + j) = nop_to_use[i];
-    j++;
+  unsigned int remaining = nop_pad_len;
+  const unsigned int longest_nop =
+      sizeof(FIXED_NOP_LENGTH) / sizeof(FIXED_NOP_LENGTH[0]);
+  // the gap can be longer than the longest nop instruction: use several
+  while (remaining > 0) {
+    unsigned int len = remaining > longest_nop ? longest_nop : remaining;
+    // find nop instruction of a specified length
+    const uint8_t *nop_to_use = FIXED_NOP_LENGTH[len - 1];
+    // assemble nop instruction
+    for (unsigned i = 0; i < len; i++)
+      *ptr++ = nop_to_use[i];
+    remaining -= len;
   }
   return nop_pad_len;
 }
